@@ -47,7 +47,7 @@ def main(tier, seed):
     if not ok:
         ctx.violations.append(("harness-build", {"kind": "harness does not build against /repo", "detail": out[-3000:]}, True))
         return finish(ctx)
-    n = 120 if tier == "quick" else 1500
+    n = 300 if tier == "quick" else 2500
     if changed:
         n *= 2
     corpus = []
